@@ -43,6 +43,7 @@ def binOpOf : String → Option BinOp
 
 def unOpOf : String → Option UnOp
   | "neg" => some .neg | "sqrt" => some .sqrt | "abs" => some .abs | "not" => some .not
+  | "floor" => some .floor | "ceil" => some .ceil | "round" => some .round
   | _ => none
 
 def atoms (xs : List SX) : Option (List String) :=
